@@ -1,4 +1,5 @@
 import SpgProofs.Properties.C10
+import SpgProofs.Properties.C10b
 #print axioms Spg.C10.empty_rejected
 #print axioms Spg.C10.nonempty_accepted
 #print axioms Spg.C10.words_eq
@@ -8,3 +9,11 @@ import SpgProofs.Properties.C10
 #print axioms Spg.C10.kept_order_indep
 #print axioms Spg.C10.model_order_covers
 #print axioms Spg.C10.atoms_from_kept
+#print axioms Spg.C10b.up_up
+#print axioms Spg.C10b.isSep_up
+#print axioms Spg.C10b.go_go
+#print axioms Spg.C10b.title_idem
+#print axioms Spg.C10b.go_length
+#print axioms Spg.C10b.title_length
+#print axioms Spg.C10b.title_eq_nil
+#print axioms Spg.C10b.kept_spec_ascii
